@@ -492,6 +492,10 @@ func verifyFuncBeh(prog *Program, key string, beh *Behavior) (res *FuncResult) {
 	res.Errors = dedupe(ex.errs)
 	res.Drift = append(res.Drift, ex.drift...)
 	for _, cc := range fc.Callsites {
+		if !ex.callsitesUsed[cc] && cc.Stmt && cc.Lemma {
+			res.Warnings = append(res.Warnings, fmt.Sprintf("%s: lemma at %q matches no statement", key, cc.CallText))
+			continue
+		}
 		if !ex.callsitesUsed[cc] && cc.Stmt {
 			// the statement the assertion is attached to is gone: what it asserted cannot be established on this code
 			kind, lab := "F", cc.Req.Label
